@@ -20,6 +20,7 @@ RULE = ("event histories (4..18 events) over {connect request (interface.connect
 RULE += (" stream 'realdisp' also asks for the disconnect from an application thread on an idle connection (both real dispatchers): the peer must see the end and DISCONNECTED must be announced.")
 RULE += (' Event pingTickAnswered: the answer to a keep-alive ping reaches the stack while the pinging thread is still inside its write.')
 RULE += (" stream 'hsfail': the real noise layer and handshake worker, the peer's answer to the client hello unreadable (with / without a remembered server key, with / without routing information): one handshake message per connect, one failure at the application, the connection closed and announced down once.")
+RULE += (" stream 'connectraises': connect requests whose attempt fails inside the request (a dispatcher double raising gaierror; the real asyncore dispatcher with an endpoint it refuses at once), then one more connect request: a new attempt is made.")
 ASSUMPTIONS = ["dispatcher double implements the asyncore dispatcher's contract (connect -> later handle_connect | handle_error; disconnect -> synchronous "
                "handle_close -> onDisconnected; sendData dropped unless connected); real sockets / DNS / TLS are not exhibited",
                "the keep-alive thread runs on a virtual clock (one real loop iteration per tick); the noise and axolotl layers' reset on DISCONNECTED is C04's / C14's subject"]
@@ -193,6 +194,11 @@ def cases(chk):
         for edge in (False, True):
             for glen in (1, 40, 300):
                 yield "hsfail", {"remembered": remembered, "edge": edge, "garbage": glen}
+    # a connect request whose attempt fails at once, inside the request (the server's name does not resolve, the network is unreachable): the
+    # next connect request makes a new attempt
+    for disp in ("double", "asyncore"):
+        for fails_first in (1, 2):
+            yield "connectraises", {"dispatcher": disp, "failing": fails_first}
     errs = ["streamError:conflict", "streamError:ack", "streamError:xmlNotWellFormed", "streamError:unknown"]
     for _ in range(chk.scale(350, 6000)):
         # guided walk: a coarse guess of the connection state steers the choice so that histories get deep
@@ -347,6 +353,77 @@ def run_relogin(chk, case):
     return fails
 
 
+def run_connectraises(chk, case):
+    """connect requests whose attempt fails synchronously (the dispatcher's connect raises: name resolution, unreachable network, a bad
+    endpoint), then one more connect request: it is not taken for a duplicate of an attempt that no longer exists — a new attempt is made"""
+    import socket
+    from yowsup.layers import YowLayerEvent
+    from yowsup.layers.network import YowNetworkLayer
+    from yowsup.stacks import YowStack
+    import yowsup.layers.network.layer as nl
+    fails = []
+    attempts = []
+    saved = nl.AsyncoreConnectionDispatcher
+    saved_loop = None
+    top = Probe("top")
+    try:
+        if case["dispatcher"] == "double":
+            class Failing(FakeDispatcher):
+                def connect(self, host):
+                    attempts.append(host)
+                    if len(attempts) <= case["failing"]:
+                        raise socket.gaierror(-3, "Temporary failure in name resolution")
+                    FakeDispatcher.connect(self, host)
+            nl.AsyncoreConnectionDispatcher = Failing
+            FakeDispatcher.created = []
+            FakeDispatcher.LOG = []
+            endpoints = [("e1.whatsapp.net", 443)] * (case["failing"] + 1)
+        else:
+            # the real asyncore dispatcher: a port outside 0..65535 makes its connect raise at once, without any name service involved
+            import asyncore
+            from yowsup.layers.network.dispatcher.dispatcher_asyncore import AsyncoreConnectionDispatcher as RealDispatcher
+            real_connect = RealDispatcher.connect
+
+            def counted(self, host):
+                attempts.append(host)
+                return real_connect(self, host)
+            RealDispatcher.connect = counted
+            nl.AsyncoreConnectionDispatcher = RealDispatcher
+            saved_loop = asyncore.loop
+            asyncore.loop = lambda *a, **k: None
+            endpoints = [("127.0.0.1", 70000)] * (case["failing"] + 1)
+        stack = YowStack((YowNetworkLayer, top), reversed=False)
+        outcomes = []
+        for i, ep in enumerate(endpoints):
+            stack.setProp(YowNetworkLayer.PROP_ENDPOINT, ep)
+            n = len(attempts)
+            try:
+                stack.broadcastEvent(YowLayerEvent(YowNetworkLayer.EVENT_STATE_CONNECT))
+                outcomes.append("returned")
+            except Exception as e:
+                outcomes.append("raised " + type(e).__name__)
+            _drain_detached(stack)
+            chk.hit("connectraises:" + case["dispatcher"])
+            if len(attempts) == n:
+                fails.append(oracle("C16:connect-ignored-after-failed-attempt",
+                                    "%s dispatcher, history %s: connect request #%d made no connection attempt — the %d attempt(s) before it failed inside the request (%s) "
+                                    "and the layer still counts itself as connecting: no later connect request can ever start a login"
+                                    % (case["dispatcher"], ["connect request"] * (i + 1), i + 1, i, ", ".join(outcomes[:i]))))
+                break
+    finally:
+        nl.AsyncoreConnectionDispatcher = saved
+        if saved_loop is not None:
+            import asyncore
+            asyncore.loop = saved_loop
+            RealDispatcher.connect = real_connect
+            for d in list(asyncore.socket_map.values()):
+                try:
+                    d.close()
+                except Exception:
+                    pass
+    return fails
+
+
 def run_hsfail(chk, case):
     """connect, the real noise layer writes its login, the peer's answer to the client hello is unreadable: exactly one client hello was written
     on that connection, the application gets one failure, the connection is closed and announced down once — with and without a remembered server key"""
@@ -450,7 +527,7 @@ def _drain_detached(stack):
 
 
 def nontrivial(stream, case):
-    if stream in ("dispcontract", "reframe", "hsfail"):
+    if stream in ("dispcontract", "reframe", "hsfail", "connectraises"):
         return (stream, repr(case))
     if stream == "realdisp":
         return (stream, repr(case))
@@ -870,6 +947,8 @@ def run_case(chk, stream, case):
         return run_relogin(chk, case)
     if stream == "hsfail":
         return run_hsfail(chk, case)
+    if stream == "connectraises":
+        return run_connectraises(chk, case)
     from yowsup.layers import YowLayerEvent
     from yowsup.layers.network import YowNetworkLayer
     fails = []
@@ -1154,7 +1233,7 @@ def check_trace(case, executed, trace):
 
 
 def shrink(stream, case):
-    if stream in ("reboot", "realdisp", "dispcontract", "reframe", "hsfail"):
+    if stream in ("reboot", "realdisp", "dispcontract", "reframe", "hsfail", "connectraises"):
         return
     if stream == "relogin":
         for i in range(len(case["downs"])):
